@@ -35,6 +35,22 @@ CLAIMED["C16"] = (
     "three structural clauses of C16; quiescent counts and lazy-free-list age arithmetic are not decided; trusted: "
     "rustc MIR + borrow checker, extractor, the (function, atomic, lock) table in props/C16.py",
     "DESIGN.md section 4 C16")
+CLAIMED["C05"] = (
+    "MIR variant-routing coverage (R-VARIANT): arms of every switch on the storage enum, key consumption by back ends, "
+    "stem agreement; strategy->storage mapping; who-may-write on num_keys",
+    "static rule over MIR: for every trie operation named by the property and every TrieStorage variant, the arm must read "
+    "the variant's storage or use the key, the back end must read the key and belong to the same strategy family",
+    "one clause of C05 (per-strategy routing, no stub strategy); value-level trie algorithms are not decided; unimplemented "
+    "strategies present in the tree are listed as known findings with failing demonstrations",
+    "DESIGN.md section 4 C05, section 3 R-VARIANT")
+CLAIMED["C06"] = (
+    "MIR must-pass-through-sanitiser analysis for the in-band occupancy marker (R-TAINT-S, sentinels and sanitiser inferred "
+    "structurally) + variant-routing coverage (R-VARIANT)",
+    "static rules over MIR: a hash from Hasher::finish cannot reach a store into / comparison with HashEntry.hash without "
+    "passing a function that tests every sentinel; every map operation x HashMapStorage variant reaches a back end that "
+    "reads the key",
+    "two clauses of C06; probe sequences, tombstone reuse, resize and iteration are value-level and not decided",
+    "DESIGN.md section 4 C06, section 3 R-TAINT-S / R-VARIANT")
 NA = {
     "C11": "sortedness/permutation/multiset equality of loops over data for all inputs and configurations is value-level; no structural clause is a necessary condition short of the result itself",
     "C12": "lexicographic order of all suffixes, exact LCP and search ranges are value-level for every construction algorithm",
